@@ -1,6 +1,7 @@
 (** C04 — pinned statements (MQTT 3.1.1 part).  Only [Theorem .. exact ..]. *)
 From Rumqtt Require Import Codec.Wire Codec.V4 Codec.WireProofs Codec.V4Proofs.
 From Rumqtt Require Import Codec.V5Props Codec.V5 Codec.V5PropsProofs Codec.V5TotalProofs Codec.V5Proofs.
+From Rumqtt Require Import Gen.Tables Codec.GenTie.
 
 Theorem c04_length_write_remaining : forall n r, n <= 268435455 ->
   exists bs, write_remaining_length n = Ok bs /\ len bs = len_len n /\
@@ -146,3 +147,79 @@ Theorem c04_asym_connack_v4_codes_v5 :
   write5 Client None (ConnAck5 false 2 None) = Panic P_UNREACHABLE /\ write5 Broker None (ConnAck5 false 1 None) = Panic P_UNREACHABLE
   /\ write5 Broker None (ConnAck5 false 2 None) = Err Unrepresentable /\ wf5 Client (ConnAck5 false 2 None) = false.
 Proof. exact asym5_connack_v4_codes. Qed.
+
+(* ---- tie to the code tables regenerated from the Rust sources of both crates (Gen/Tables.v) ---- *)
+Theorem c04_tie_connect_props : block_ties connect_tab [broker_connect_props; client_connect_props].
+Proof. exact tie_connect_props. Qed.
+
+Theorem c04_tie_will_props : block_ties will_tab [broker_connect_will_props; client_connect_will_props].
+Proof. exact tie_will_props. Qed.
+
+Theorem c04_tie_connack_props : block_ties connack_tab [broker_connack_props0; client_connack_props0].
+Proof. exact tie_connack_props. Qed.
+
+Theorem c04_tie_publish_props : block_ties publish_tab [broker_publish_props0; client_publish_props0].
+Proof. exact tie_publish_props. Qed.
+
+Theorem c04_tie_ack_props : block_ties ack_tab
+  [broker_puback_props0; broker_pubrec_props0; broker_pubrel_props0; broker_pubcomp_props0;
+   broker_suback_props0; broker_unsuback_props0;
+   client_puback_props0; client_pubrec_props0; client_pubrel_props0; client_pubcomp_props0;
+   client_suback_props0; client_unsuback_props0].
+Proof. exact tie_ack_props. Qed.
+
+Theorem c04_tie_subscribe_props : block_ties subscribe_tab [broker_subscribe_props0; client_subscribe_props0].
+Proof. exact tie_subscribe_props. Qed.
+
+Theorem c04_tie_unsubscribe_props : block_ties unsubscribe_tab [broker_unsubscribe_props0; client_unsubscribe_props0].
+Proof. exact tie_unsubscribe_props. Qed.
+
+Theorem c04_tie_disconnect_props : block_ties disconnect_tab [broker_disconnect_props0; client_disconnect_props0].
+Proof. exact tie_disconnect_props. Qed.
+
+Theorem c04_tie_block_ties_means : forall tab ls, block_ties tab ls <->
+  (forall l, In l ls -> forall id, in_table tab id = mem id l).
+Proof. exact tie_block_ties_means. Qed.
+
+Theorem c04_tie_puback_codes : code_ties puback_reasons
+  [broker_puback_dec; broker_pubrec_dec; client_puback_dec; client_pubrec_dec]
+  [broker_puback_enc; broker_pubrec_enc; client_puback_enc; client_pubrec_enc]
+  [broker_puback_inverse; broker_pubrec_inverse; client_puback_inverse; client_pubrec_inverse].
+Proof. exact tie_puback_codes. Qed.
+
+Theorem c04_tie_pubrel_codes : code_ties pubrel_reasons
+  [broker_pubrel_dec; broker_pubcomp_dec; client_pubrel_dec; client_pubcomp_dec]
+  [broker_pubrel_enc; broker_pubcomp_enc; client_pubrel_enc; client_pubcomp_enc]
+  [broker_pubrel_inverse; broker_pubcomp_inverse; client_pubrel_inverse; client_pubcomp_inverse].
+Proof. exact tie_pubrel_codes. Qed.
+
+Theorem c04_tie_connack_codes : code_ties connack_codes
+  [broker_connack_dec; client_connack_dec] [broker_connack_enc; client_connack_enc]
+  [broker_connack_inverse; client_connack_inverse].
+Proof. exact tie_connack_codes. Qed.
+
+Theorem c04_tie_unsuback_codes : code_ties unsuback_reasons
+  [broker_unsuback_dec; client_unsuback_dec] [broker_unsuback_enc; client_unsuback_enc]
+  [broker_unsuback_inverse; client_unsuback_inverse].
+Proof. exact tie_unsuback_codes. Qed.
+
+Theorem c04_tie_disconnect_codes : code_ties disconnect_reasons
+  [broker_disconnect_dec; client_disconnect_dec] [broker_disconnect_enc; client_disconnect_enc]
+  [broker_disconnect_inverse; client_disconnect_inverse].
+Proof. exact tie_disconnect_codes. Qed.
+
+Theorem c04_tie_code_ties_means : forall model decs encs inv, code_ties model decs encs inv <->
+  ((forall l, In l decs -> forall c, mem c model = mem c l) /\
+   (forall l, In l encs -> forall c, mem c model = mem c l) /\
+   (forall b, In b inv -> b = true)).
+Proof. exact tie_code_ties_means. Qed.
+
+Theorem c04_tie_property_ids : forall id,
+  (match kind_of_id id with Some _ => true | None => false end) = mem id broker_property_ids /\
+  (match kind_of_id id with Some _ => true | None => false end) = mem id client_property_ids.
+Proof. exact tie_property_ids. Qed.
+
+Theorem c04_tie_suback_codes : forall fl c,
+  (match rc5_reason fl c with Ok _ => true | _ => false end) = mem c broker_suback_dec /\
+  (match rc5_reason fl c with Ok _ => true | _ => false end) = mem c client_suback_dec.
+Proof. exact tie_suback_codes. Qed.
